@@ -16,7 +16,8 @@ for e in kf:
         if e['property'] not in fix_props[e['commit']]: fix_props[e['commit']].append(e['property'])
 jobs=[]
 for sha,props in fix_props.items(): jobs.append(('revert',sha,props))
-for d in sorted(glob.glob(f'{V}/seeded/*')):
+for d in sorted(glob.glob(f'{V}/seeded/C*')):
+    if not os.path.exists(d+'/patch.diff'): continue   # superseded by a later fix
     m=json.load(open(d+'/meta.json')); jobs.append(('seed',d,[m['breaks_property']]))
 extra={'C02b':['C12'],'C13b':['C12'],'C10b':['C04'],'C01b':['C05'],'C02d':['C01'],'C01d':['C11'],'C10c':['C07'],'C08f':['C17'],'C08g':['C14'],'C10e':['C18'],'C18g':['C05']}
 for m in json.load(open(f'{V}/mutants/INDEX.json')):
